@@ -160,7 +160,8 @@ Section Calls.
   Definition oe (vi : nat) (name : str) (om : N) (c : nat) : fsys * (res + handle) :=
     match get (f_heap s) c with
     | Some (NFile d k i m) =>
-        if negb (check_permission m om (v_user v)) then (s, inl (RFail EPermDenied))
+        if negb (check_permission m (if has om OpenTruncate then N.lor om OpenWrite else om) (v_user v))
+        then (s, inl (RFail EPermDenied))
         else if has om OpenCreateExcl then (s, inl (RFail EFileExists))
         else
           let d1 := if has om OpenTruncate then [] else d in
@@ -168,7 +169,7 @@ Section Calls.
           (with_heap s (upd (f_heap s) c (NFile d1 k i m)), inr (new_handle c vi name at_ om))
     | Some (NDir _ m) =>
         if has om OpenCreateExcl then (s, inl (RFail EFileExists))
-        else if has om OpenWrite then (s, inl (RFail EIsADirectory))
+        else if has om OpenWrite || has om OpenCreate || has om OpenTruncate then (s, inl (RFail EIsADirectory))
         else if negb (check_permission m om (v_user v)) then (s, inl (RFail EPermDenied))
         else (s, inr (new_handle c vi name 0 om))
     | _ => (s, inr (new_handle c vi name 0 om))
@@ -176,6 +177,7 @@ Section Calls.
 
   Lemma open_file_unfold vi name flag perm :
     open_file s v vi name flag perm =
+    match name with [] => (s, inl (RFail ENoSuchFile)) | _ =>
     let om := to_open_mode flag in
     let r := search_node s v name (if has om OpenCreateExcl then SlLstat else SlEval) in
     let e := sr_err r in
@@ -192,7 +194,7 @@ Section Calls.
         else match sr_parent r with
              | None => (s, inl RPanic)
              | Some parent =>
-                 if negb (has om OpenWrite) || negb (perm_on (f_heap s) parent (N.lor OpenWrite OpenLookup) (v_user v))
+                 if negb (perm_on (f_heap s) parent (N.lor OpenWrite OpenLookup) (v_user v))
                  then (s, inl (RFail EPermDenied))
                  else
                    match alk (pi_part (sr_pi r)) (children (f_heap s) parent) with
@@ -205,7 +207,8 @@ Section Calls.
       else match sr_child r with
            | Some c => oe vi name om c
            | None => (s, inl RPanic)
-           end.
+           end
+    end.
   Proof. reflexivity. Qed.
 
   Definition open_post (x : fsys * (res + handle)) : Prop :=
@@ -221,9 +224,9 @@ Section Calls.
     { split; [stay|]. cbn [snd fst]. intros f [= <-] c'. cbn [new_handle hd_node]. now intros [= <-]. }
     destruct (get (f_heap s) c) as [[ch m|d k i m|lk m]|] eqn:Eg; try exact Hh.
     - destruct (has om OpenCreateExcl); [apply open_post_stay|].
-      destruct (has om OpenWrite); [apply open_post_stay|].
+      destruct (has om OpenWrite || has om OpenCreate || has om OpenTruncate); [apply open_post_stay|].
       destruct (negb (check_permission m om (v_user v))); [apply open_post_stay | exact Hh].
-    - destruct (negb (check_permission m om (v_user v))); [apply open_post_stay|].
+    - match goal with |- context [if ?b then _ else _] => destruct b end; [apply open_post_stay|].
       destruct (has om OpenCreateExcl); [apply open_post_stay|].
       cbv zeta.
       destruct (Inv_heap_set_data _ c d k i m (if has om OpenTruncate then [] else d) IH Eg) as [H1 H2].
@@ -234,7 +237,8 @@ Section Calls.
 
   Lemma open_file_ok vi name flag perm : open_post (open_file s v vi name flag perm).
   Proof.
-    rewrite open_file_unfold. cbv zeta.
+    rewrite open_file_unfold. destruct name as [|b0 name0]; [apply open_post_stay|].
+    set (name := b0 :: name0). cbv zeta.
     set (slm := if has (to_open_mode flag) OpenCreateExcl then SlLstat else SlEval).
     assert (Hslm : slm <> SlStat) by (unfold slm; destruct (has (to_open_mode flag) OpenCreateExcl); discriminate).
     set (r := search_node s v name slm).
@@ -246,8 +250,7 @@ Section Calls.
     destruct (is_not_exist (sr_err r)) eqn:Ene.
     - destruct (negb (has (to_open_mode flag) OpenCreate)); [apply open_post_stay|].
       destruct (search_post_not_exist _ _ HP Ene) as (p & Hp1 & Hp2 & _ & Hn). rewrite Hp1.
-      destruct (negb (has (to_open_mode flag) OpenWrite)
-                || negb (perm_on (f_heap s) p (N.lor OpenWrite OpenLookup) (v_user v))); [apply open_post_stay|].
+      destruct (negb (perm_on (f_heap s) p (N.lor OpenWrite OpenLookup) (v_user v))); [apply open_post_stay|].
       rewrite Hn. cbn [create_file].
       destruct (Inv_heap_create (f_heap s) p (pi_part (sr_pi r))
                   (NFile [] 1 (f_last_id s + 1)%N (new_meta v (file_mode (v_os v)) perm)) IH Hp2 Hn) as [H1 H2].
